@@ -248,6 +248,18 @@ fn validate_nxdomain_response(cx: &Context<'_>) -> Proof {
         return cx.proof(Proof::Bogus, "returning early proof");
     }
 
+    // RFC 5155 section 8.3: the closest encloser's NSEC3 must not be that of an ancestor delegation
+    // (NS without SOA) or of a DNAME owner.
+    if closest_encloser
+        .as_ref()
+        .is_some_and(|(_, record)| is_ancestor_delegation_or_dname(record.nsec3_data))
+    {
+        return cx.proof(
+            Proof::Bogus,
+            "closest encloser is a delegation point or DNAME owner",
+        );
+    }
+
     match (closest_encloser, next_closer, closest_encloser_wildcard) {
         // Got all three components - we proved that there's no `query_name`
         // in the zone
@@ -330,6 +342,13 @@ fn validate_nodata_response(
             return cx.proof(
                 Proof::Bogus,
                 format_args!("nsec3 type map covers {query_type} or CNAME"),
+            );
+        } else if query_type != RecordType::DS && is_ancestor_delegation(query_record.nsec3_data) {
+            // RFC 6840 section 4.1: the parent-side NSEC3 of a delegation proves nothing about
+            // types other than DS at its owner name.
+            return cx.proof(
+                Proof::Bogus,
+                "matching nsec3 belongs to an ancestor delegation",
             );
         } else {
             return cx.proof(
@@ -438,6 +457,16 @@ fn validate_nodata_response(
                 closest_encloser_wildcard,
             ) = cx.closest_encloser_proof_with_wildcard(true);
             match (closest_encloser, next_closer, closest_encloser_wildcard) {
+                (Some((_, closest_encloser)), Some(_), Some((_, wildcard)))
+                    if !wildcard.nsec3_data.type_set().contains(query_type)
+                        && !wildcard.nsec3_data.type_set().contains(RecordType::CNAME)
+                        && is_ancestor_delegation_or_dname(closest_encloser.nsec3_data) =>
+                {
+                    (
+                        Proof::Bogus,
+                        "closest encloser is a delegation point or DNAME owner",
+                    )
+                }
                 (Some(_), Some(_), Some((_, wildcard)))
                     if !wildcard.nsec3_data.type_set().contains(query_type)
                         && !wildcard.nsec3_data.type_set().contains(RecordType::CNAME) =>
@@ -457,6 +486,16 @@ fn validate_nodata_response(
     };
 
     cx.proof(proof, reason)
+}
+
+/// NS without SOA: the NSEC3 record was generated by the parent side of a zone cut.
+fn is_ancestor_delegation(nsec3: &NSEC3) -> bool {
+    nsec3.type_set().contains(RecordType::NS) && !nsec3.type_set().contains(RecordType::SOA)
+}
+
+/// RFC 5155 section 8.3 check on the record matching the closest encloser (DNAME is type 39).
+fn is_ancestor_delegation_or_dname(nsec3: &NSEC3) -> bool {
+    is_ancestor_delegation(nsec3) || nsec3.type_set().contains(RecordType::from(39))
 }
 
 fn split_first_label(name: &Name) -> Option<(&[u8], Name)> {
